@@ -167,12 +167,14 @@ def run(job, seed):
         # targets holding every subset of the keys - a template needs its own
         # keys and nothing else
         from oslo_policy import _checks, _parser
-        keys = ('ka', 'kb', 'kc')
+        # (two keys hold characters an identifier cannot: a colon, a dash)
+        keys = ('ka', 'kb', 'kc', 'net:own', 't-id')
         templates = {'ta': '%(ka)s', 'tb': '%(kb)s', 'tab': '%(ka)s%(kb)s',
-                     'tc': 'x-%(kc)s', 'lit': 'ab'}
-        for order in itertools.permutations(sorted(templates)):
-            if order[0] > order[-1]:
-                continue          # one of each mirror pair
+                     'tc': 'x-%(kc)s', 'lit': 'ab', 'tn': '%(net:own)s',
+                     'td': 'x-%(t-id)s'}
+        orders = [o for i, o in enumerate(
+            itertools.permutations(sorted(templates))) if i % 97 == 0]
+        for order in orders:
             enf2 = world.bare_enforcer()
             rules = {}
             for n in order:
@@ -181,8 +183,12 @@ def run(job, seed):
             # objects built directly and through the list syntax as well
             _checks.RoleCheck('role', '%(kz)s')
             _parser.parse_rule([['role:%(ky)s']])
-            for mask in range(8):
-                target = {k: 'a' if i < 2 else 'b'
+            # the SAME rule objects meet one target after the other; the
+            # value of a key changes from one target to the next
+            for mask in list(range(32)) + list(range(31, -1, -1)):
+                flip = mask % 3 == 0
+                target = {k: ('b' if flip else 'a') if i in (0, 1, 3)
+                          else ('a' if flip else 'b')
                           for i, k in enumerate(keys) if mask >> i & 1}
                 for rl in ([], ['a'], ['aa'], ['x-b'], ['a', 'aa', 'x-b'],
                            ['ab']):
